@@ -71,7 +71,7 @@ PROPS.update({
         fields=r"^(remove|begin|end)\.|^c\d+\.(phase|removal|client|channel|ka|byaddr|prune|valset|optin|pend|acks|allow|deny|prio|minpow|qinfr|inith|evmin)|^g\.(removeq|client2c|chan2c|infrq)"),
     "C14": dict(streams=[LIFE, KEYS], rule=PROV_RULE + "; senders drawn from owner / previous owner / other users / governance; signer of validator messages occasionally another validator",
         assumptions=PROV_ASSUME, fields=r"^(create|update|remove|optin|optout|assign)\.res|^c\d+\.(owner|ps|minpow)"),
-    "C17": dict(streams=[HANDSHAKE, CONSUMER], rule=PROV_RULE + "; handshake stream: every combination of ordering, ports, version, hop count, underlying client, initiating side, repeated attempts and confirmations; consumers launched on created clients and on two pre-existing connections that several consumers name; a launch on the connection of a stopped consumer; consumer stream: the consumer's own OnChanOpenInit / Try / Ack / Confirm / CloseInit with every combination of ordering, ports, version (blank = default), hops and underlying client, before and after the provider channel is fixed by the first VSC packet",
+    "C17": dict(streams=[HANDSHAKE], rule=PROV_RULE + "; handshake stream: every combination of ordering, ports, version, hop count, underlying client, initiating side, repeated attempts and confirmations; consumers launched on created clients and on two pre-existing connections that several consumers name; a launch on the connection of a stopped consumer; consumer stream: the consumer's own OnChanOpenInit / Try / Ack / Confirm / CloseInit with every combination of ordering, ports, version (blank = default), hops and underlying client, before and after the provider channel is fixed by the first VSC packet",
         assumptions=PROV_ASSUME + ["core IBC handshake (channel states, connection/client existence) is scripted"],
         fields=r"^(chantry|chanconfirm|begin)\.|^c\d+\.(client|channel|inith|phase)|^g\.(client2c|chan2c)"),
     "C20": dict(streams=[LIFE], rule=PROV_RULE + "; infraction-parameter requests partial/repeated/cancelling, before and after launch, block times around the due time",
@@ -109,6 +109,7 @@ PROPS["C13"]["rule"] = PROV_RULE + "; isolation stream: 13 consumers (ids 0..12,
 PROPS["C20"]["streams"] = [LIFE, INFRACTION]
 PROPS["C05"]["streams"].append(ISOLATION)
 PROPS["C06"]["streams"].append(ISOLATION)
+PROPS["C17"]["streams"] = [HANDSHAKE, CONSUMER]
 TWOCHAIN = dict(name="twochain", quick=(4, 500), thorough=(20, 3000))
 PROPS["C01"]["streams"] = [VALSET, CONSUMER, EPOCH, ISOLATION, TWOCHAIN]
 PROPS["C01"]["fields"] = r"^(diff|accum|cinit|applycc)\.|^cons\.(cc|pendch|cend|cinit)|^end\.(sent|valupd)|^c\d+\.(pend|valset)"
